@@ -37,6 +37,17 @@ FN = 'parmcb::greedy_fvs'
 LOOPS = ('ForStmt', 'WhileStmt', 'DoStmt', 'CXXForRangeStmt')
 
 
+def is_forwarder(fn):
+    """an overload that only forwards to another overload of the same function (e.g. supplies the default vertex index map)"""
+    if fn.body is None:
+        return False
+    stmts = [c for c in fn.body.c] if fn.body.k == 'CompoundStmt' else [fn.body]
+    if len(stmts) != 1:
+        return False
+    e = stmts[0].strip_all() if stmts[0].k != 'ReturnStmt' else (stmts[0].c[0].strip_all() if stmts[0].c else None)
+    return e is not None and e.k == 'CallExpr' and e.callee is not None and e.callee['g'] == fn.g and e.callee_id != fn.fref_id
+
+
 class Model(object):
     def __init__(self, prog, fn):
         self.prog, self.fn, self.cfg = prog, fn, fn.cfg
@@ -355,6 +366,13 @@ def check(rep, prog, fn):
                 if r.k == 'CallExpr' and r.callee and r.callee['g'] in ('boost::target', 'boost::opposite', 'boost::source'):
                     nbr_loops.append((lp, d.decl_id, r))
                     break
+        else:
+            # for (auto w : make_iterator_range(adjacent_vertices(x, g))): the loop variable is the neighbour itself
+            if lp.k == 'CXXForRangeStmt' and lp.role('range') is not None and lp.role('loopvar') is not None:
+                adj = [x for x in lp.role('range').walk() if x.k == 'CallExpr' and x.callee and x.callee['g'] == 'boost::adjacent_vertices']
+                lvs = [d.decl_id for d in lp.role('loopvar').walk() if d.k == 'VarDecl']
+                if adj and lvs:
+                    nbr_loops.append((lp, lvs[0], adj[0]))
 
     def loop_vertex(lp):
         """the vertex whose out_edges the loop iterates (through a range variable assigned from boost::out_edges)"""
@@ -470,13 +488,24 @@ def check(rep, prog, fn):
             rep.violation('R13c', n, fn, whatc2, 'the neighbour update can be skipped', key='R13c|%s|%s|skippable' % (fn.g, V[v]['name']))
     # ------------------------------------------------------------------ R13d
     whatd = 'the emitted vertex comes from the heap and its liveness flag is cleared afterwards'
-    outp = fn.param_ids[1] if len(fn.param_ids) > 1 else None
+    outp = fn.param_ids[-1] if len(fn.param_ids) > 1 else None      # (g, out) or (g, index_map, out)
     emits = []
     for n in m.nodes:
         if n.k in ('BinaryOperator', 'CXXOperatorCallExpr') and n.op == '=':
             ops = n.c if n.k == 'BinaryOperator' else n.c[1:]
             if len(ops) == 2 and any(d.k == 'DeclRefExpr' and d.decl_id == outp for d in ops[0].walk()) and ex.var_of(ops[0]) != outp:
                 emits.append((n, ex.var_of(ops[1])))
+    # buffered emission: vertices are collected in a local sequence that is copied, whole and in order, to the output iterator at the end
+    buffers = set()
+    for n in m.nodes:
+        if n.k == 'CallExpr' and n.callee and n.callee['g'] == 'std::copy' and len(n.args()) == 3 and ex.var_of(n.args()[2]) == outp:
+            a0, a1 = n.args()[0].strip_all(), n.args()[1].strip_all()
+            if a0.k == 'CXXMemberCallExpr' and a1.k == 'CXXMemberCallExpr' and a0.callee['name'] in ('begin', 'cbegin') and a1.callee['name'] in ('end', 'cend') and \
+                    ex.var_of(a0.object_arg()) is not None and ex.var_of(a0.object_arg()) == ex.var_of(a1.object_arg()) and n.enclosing(*LOOPS) is None:
+                buffers.add(ex.var_of(a0.object_arg()))
+    for n in m.nodes:
+        if n.k == 'CXXMemberCallExpr' and n.callee and n.callee['name'] in ('push_back', 'emplace_back') and ex.var_of(n.object_arg()) in buffers and n.args():
+            emits.append((n, ex.var_of(n.args()[0])))
     # the output iterator is a value: handing it by value to a helper that writes through it and then using the stale copy again overwrites
     # the first emitted vertex for positional iterators (rule shared with C05: R05f)
     from . import approx
@@ -646,6 +675,8 @@ def run(rep, tier):
     rep.rule('R07g', 'greedy_fvs keeps no function-local static state (two overlapping calls must not share the liveness / degree tables)', floor=0)
     for prog in progs.values():
         for fn in prog.fns(FN):
+            if is_forwarder(fn):
+                continue        # judged through the overload it forwards to
             n += 1
             check(rep, prog, fn)
         c07.r07g(rep, prog, only_files=('fvs.hpp',))
